@@ -1,5 +1,5 @@
 # replay of a bounded stand-in violation (C02): re-run native/c02_preps.py
 import sys
-print('sMZgate(0.4, 1.3) followed by its .H form on modes (2, 0) (gaussian backend) is not the identity (max moment change 0.953)')
+print('Gaussian(diagonal V_xx=2.5, V_pp=1.0) on modes [0]: decomposed and natively applied operation give different states (max difference 1.5)')
 print('REPLAY-VIOLATION')
 sys.exit(1)
